@@ -5,7 +5,7 @@
    number of events; every step is one shared-memory access or one lock / Event / pipe operation of
    the real source).  [reachable m s] = s is reached from the initial state by some interleaving. *)
 From Coq Require Import List Arith Bool.
-From Circ Require Import Model.Wake Proofs.WakeInvP Proofs.WakeP Proofs.WakeOnceP.
+From Circ Require Import Model.Wake Proofs.WakeInvP Proofs.WakeP Proofs.WakeOnceP Proofs.WakeProgP.
 Import ListNotations.
 
 (* Safety form of "fire() returning implies the loop dispatches that event without needing a timeout":
@@ -49,6 +49,37 @@ Theorem C03_dispatched_once : forall m s, reachable m s -> forall i,
   exists n, n <= fapp (fts s i) /\ proj i (disp s) = map (EvF i) (seq 0 n).
 Proof. exact dispatched_once. Qed.
 Print Assumptions C03_dispatched_once.
+
+(* Progress, bounded form.  [all_idle s]: every firing thread is outside fire() (all calls have returned).
+   [lrun n s] lets ONLY the loop thread move, for at most n steps, stops as soon as no foreign event is
+   queued ([fpend s = []]) and refuses to move out of a blocked wait, i.e. it never uses a Timeout
+   transition ([AWait false] on a wait with positive/absent timeout, [ASelect false]).  [measure s] is
+   explicit: 40 per heap entry + 41 per deque entry still to be moved + the rank of the loop's program point
+   + the cost of one more tick while a foreign event sits in the deque.  Both waiters (m = Fallback / Poller).
+   Together with C03_no_lost_wakeup: once fire() has returned, the loop dispatches the event without any
+   timeout having to expire. *)
+Theorem C03_progress : forall m s, reachable m s -> all_idle s ->
+  exists s', lrun (S (measure s)) s = Some s' /\ fpend s' = [] /\ fts s' = fts s /\ reachable m s'.
+Proof. exact progress. Qed.
+Print Assumptions C03_progress.
+
+(* ... and then every event ever appended by thread i has been handed to the dispatcher, in firing order *)
+Theorem C03_progress_dispatched : forall m s, reachable m s -> all_idle s ->
+  exists s', lrun (S (measure s)) s = Some s' /\
+             forall i, proj i (disp s') = map (EvF i) (seq 0 (fapp (fts s i))).
+Proof. exact progress_dispatched. Qed.
+Print Assumptions C03_progress_dispatched.
+
+(* the same as a trace of the transition system: loop-thread actions only, at most measure+1 of them *)
+Theorem C03_progress_trace : forall m s, reachable m s -> all_idle s ->
+  exists tr s', length tr <= S (measure s) /\ run s (map (fun a => (0, a)) tr) = Some s' /\ fpend s' = [].
+Proof. exact progress_trace. Qed.
+Print Assumptions C03_progress_trace.
+
+(* while a returned event is queued the loop is not blocked (contrapositive of C03_no_lost_wakeup) *)
+Theorem C03_not_blocked : forall m s, reachable m s -> all_idle s -> fpend s <> [] -> blocked s = false.
+Proof. exact not_blocked. Qed.
+Print Assumptions C03_not_blocked.
 
 (* ---- non-vacuity: blocked states with a queued foreign event are reachable (the firing thread is mid-fire) *)
 Definition idle_fallback : list (nat * lbl) :=
@@ -95,3 +126,13 @@ Example C03_ex_order :
     disp s = [EvG 0; EvF 0 0; EvF 1 0; EvF 0 1] /\ proj 0 (disp s) = [EvF 0 0; EvF 0 1] /\
     pending s = [EvG 1].
 Proof. eexists. split; [vm_compute; reflexivity|]. vm_compute. auto. Qed.
+
+(* progress on a concrete state: loop parked, two threads have fired three events and returned *)
+Example C03_ex_progress :
+  exists s s', run (init Fallback)
+    (idle_fallback ++ fire_upto_append ++ fire_rest ++
+     map (fun a => (2, a)) [AAcq; AFReadH; ACount; AAppF; AAcq; ARTest; ARel; ARel; ARet] ++
+     map (fun a => (1, a)) [AAcq; AFReadH; ACount; AAppF; AAcq; ARTest; ARel; ARel; ARet]) = Some s /\
+    fpend s = [EvF 0 0; EvF 1 0; EvF 0 1] /\ measure s = 171 /\
+    lrun 17 s = Some s' /\ fpend s' = [] /\ disp s' = [EvG 0; EvF 0 0; EvF 1 0; EvF 0 1] /\ lrun 16 s = None.
+Proof. eexists. eexists. split; [vm_compute; reflexivity|]. vm_compute. auto 10. Qed.
